@@ -137,7 +137,7 @@ def run(ctx):
     rng = ctx.rng
     failures, tie_breaks = [], []
     LMAX = ctx.scale(160, 260)
-    njobs = ctx.scale(24, 700)
+    njobs = ctx.scale(24, 72)
     per_job = 8
     jobs, meta = [], {}
     for j in range(njobs):
